@@ -38,6 +38,12 @@ class FnSpec:
         self.sections = []  # list of (kind, arg, opts, text)
         self.shims = []
 
+    def _replace_sections(self, sections, like):
+        self.name, self.props, self.impl, self.extern = like.name, like.props, like.impl, like.extern
+        self.shims, self.src_name = like.shims, like.src_name
+        self.sections = sections
+        return self
+
 
 class UnitSpec:
     def __init__(self):
@@ -218,28 +224,53 @@ def fn_shape(text: str, sig_brace: int):
     Contracts are woven at ordinal anchors (`@after top j`, `@loop k`, `@after loop k stmt j`); when the structure differs
     from the one the contract was written for, anchors are re-mapped by aligning the two token sequences."""
     m = mask(text)
-    tops = [_stmt_token(m[a:b]) for a, b in top_statements(m, sig_brace)]
+
+    def bound(ms):
+        # the single identifier a `let` statement or a `for` header binds ('' for patterns / other statements)
+        mm = re.match(r"\s*(?:'[a-z_]+\s*:\s*)?(?:let\s+(?:mut\s+)?|for\s+)([a-z_][a-z0-9_]*)\s*(?::|=|\bin\b)", ms)
+        return mm.group(1) if mm else ''
+    tspans = top_statements(m, sig_brace)
+    tops = [_stmt_token(m[a:b]) for a, b in tspans]
     loops = []
     for lp in find_loops(m[sig_brace:]):
         ob = lp['open'] + sig_brace
         try:
-            st = [_stmt_token(m[a:b]) for a, b in top_statements(m, ob)]
+            sp = top_statements(m, ob)
+            st = [_stmt_token(m[a:b]) for a, b in sp]
+            sn = [bound(m[a:b]) for a, b in sp]
         except Exception:   # noqa: BLE001
-            st = ['?']
+            st, sn = ['?'], ['']
         hdr = m[lp['kw_pos'] + sig_brace:ob]
-        loops.append(dict(kw=lp['kw'], hdr=_stmt_token(hdr), stmts=st))
-    return dict(tops=tops, loops=loops, closures=len(find_closures(m[sig_brace:])))
+        loops.append(dict(kw=lp['kw'], hdr=_stmt_token(hdr), stmts=st, var=bound(hdr), names=sn))
+    return dict(tops=tops, loops=loops, closures=len(find_closures(m[sig_brace:])), top_names=[bound(m[a:b]) for a, b in tspans])
 
 
 def _structure(sh):
     return ([t.split('|')[0] for t in sh['tops']], [(l['kw'], [t.split('|')[0] for t in l['stmts']]) for l in sh['loops']], sh['closures'])
 
 
-def _align(old, new):
+def _align(old, new, old_names=None, new_names=None):
     """old index -> new index (0-based) for two token lists (`kind|names`): a global alignment that only ever pairs statements
-    of the same kind, prefers equal tokens, then statements sharing most of the names they mention; finally a statement that
-    was moved (an unmatched old token with exactly one identical unmatched new token) is paired with its new position."""
+    of the same kind, prefers equal tokens, then statements sharing most of the names they mention (statements binding the
+    same identifier attract each other, statements binding different identifiers repel unless their tokens are equal);
+    finally a statement that was moved (an unmatched old token with exactly one counterpart) is paired with its new position."""
+    if old_names is not None and new_names is not None:
+        old = ['%s|%s' % (t, ('=' + n) if n else '') for t, n in zip(old, old_names)]
+        new = ['%s|%s' % (t, ('=' + n) if n else '') for t, n in zip(new, new_names)]
+
     def score(a, b):
+        ba = bb = ''
+        if old_names is not None and new_names is not None:
+            a, _, ba = a.rpartition('|')
+            b, _, bb = b.rpartition('|')
+        sc = score0(a, b)
+        if sc is None:
+            return None
+        if ba and bb:
+            sc = sc + 3 if ba == bb else (sc if sc >= 4 else sc - 2)
+        return sc
+
+    def score0(a, b):
         ka, _, na = a.partition('|')
         kb, _, nb = b.partition('|')
         if ka != kb:
@@ -272,6 +303,15 @@ def _align(old, new):
             i -= 1
         else:
             j -= 1
+    # a statement replaced in place by one of another kind (`f();` wrapped into `if c { f(); }`): between two neighbouring
+    # pairs (or at either end) with equally many unmatched statements on both sides, pair them by position
+    pairs = sorted(mp.items())
+    bounds = [(-1, -1)] + pairs + [(n, m_)]
+    for (i1, j1), (i2, j2) in zip(bounds, bounds[1:]):
+        if i2 - i1 == j2 - j1 and i2 - i1 > 1:
+            for k in range(1, i2 - i1):
+                if (i1 + k) not in mp and (j1 + k) not in mp.values():
+                    mp[i1 + k] = j1 + k
     free_new = [j for j in range(m_) if j not in mp.values()]
     for want in (4, 3):   # moved statements: identical token first, then same kind sharing most names
         for i, t in enumerate(old):
@@ -309,10 +349,47 @@ def weave_fn(fs: FnSpec, text: str, sig_brace: int, shim_table, variant=0, basel
     cur_shape = fn_shape(text, sig_brace) if baseline else None
     top_map = loop_map = None
     if baseline and _structure(cur_shape) != _structure(baseline):
-        top_map = _align(baseline['tops'], cur_shape['tops'])
+        top_map = _align(baseline['tops'], cur_shape['tops'], baseline.get('top_names'), cur_shape.get('top_names'))
         loop_map = _align([l['kw'] + '/' + l['hdr'] for l in baseline['loops']], [l['kw'] + '/' + l['hdr'] for l in cur_shape['loops']])
         if len(loop_map) < len(baseline['loops']) and len(baseline['loops']) == len(cur_shape['loops']):
             loop_map = {k: k for k in range(len(baseline['loops']))}   # same number of loops: keep their order
+
+    # locals renamed in the source: a `let`/`for` of the baseline structure whose counterpart binds another name.  The woven
+    # contract text names code locals (invariants about `line`, `x`, ...), so the same renaming is applied to it.
+    renames = {}
+    if baseline and baseline.get('top_names') is not None and cur_shape is None:
+        cur_shape = fn_shape(text, sig_brace)
+    if baseline and baseline.get('top_names') is not None:
+        def similar(ta, tb):
+            if ta == tb:
+                return True
+            ka, _, na = ta.partition('|')
+            kb, _, nb = tb.partition('|')
+            sa, sb = set(filter(None, na.split(','))), set(filter(None, nb.split(',')))
+            return ka == kb and (not (sa | sb) or len(sa & sb) / float(len(sa | sb)) >= 0.5)
+
+        def pair(o, n_, ta='', tb=''):
+            if o and n_ and o != n_ and similar(ta, tb):
+                renames.setdefault(o, set()).add(n_)
+        tm = top_map if top_map is not None else {k: k for k in range(min(len(baseline['tops']), len(cur_shape['tops'])))}
+        for i_, j_ in tm.items():
+            if i_ < len(baseline['top_names']) and j_ < len(cur_shape['top_names']):
+                pair(baseline['top_names'][i_], cur_shape['top_names'][j_], baseline['tops'][i_], cur_shape['tops'][j_])
+        lm = loop_map if loop_map is not None else {k: k for k in range(min(len(baseline['loops']), len(cur_shape['loops'])))}
+        for i_, j_ in lm.items():
+            bl, cl = baseline['loops'][i_], cur_shape['loops'][j_]
+            pair(bl.get('var', ''), cl.get('var', ''), bl['hdr'].replace(bl.get('var', '') or '\0', ''), cl['hdr'].replace(cl.get('var', '') or '\0', ''))
+            sm = {k: k for k in range(min(len(bl['stmts']), len(cl['stmts'])))} if bl['stmts'] == cl['stmts'] or len(bl['stmts']) == len(cl['stmts']) else _align(bl['stmts'], cl['stmts'], bl.get('names'), cl.get('names'))
+            for a_, b_ in sm.items():
+                if a_ < len(bl.get('names', [])) and b_ < len(cl.get('names', [])):
+                    pair(bl['names'][a_], cl['names'][b_], bl['stmts'][a_], cl['stmts'][b_])
+        # only unambiguous renamings, and never onto a name the contract text already uses for something else
+        renames = {o: list(ns)[0] for o, ns in renames.items() if len(ns) == 1}
+        spec_text = '\n'.join(t or '' for (_k, _a, _o, t) in fs.sections)
+        renames = {o: n_ for o, n_ in renames.items() if not re.search(r'\b%s\b' % re.escape(n_), spec_text)}
+    if renames:
+        rx = re.compile(r'(?<![.\w])(%s)\b' % '|'.join(re.escape(o) for o in renames))   # never a field / method name
+        fs = FnSpec(fs.src_name, dict(fs.opts))._replace_sections([(k, a_, o_, (rx.sub(lambda mm: renames[mm.group(1)], t) if isinstance(t, str) else t)) for (k, a_, o_, t) in fs.sections], fs)
 
     def need_loop(k):
         k0 = k
@@ -337,7 +414,7 @@ def weave_fn(fs: FnSpec, text: str, sig_brace: int, shim_table, variant=0, basel
         ob, nb = baseline['loops'][k - 1]['stmts'], cur_shape['loops'][loop_map[k - 1]]['stmts']
         if ob == nb:
             return j
-        mp = _align(ob, nb)
+        mp = _align(ob, nb, baseline['loops'][k - 1].get('names'), cur_shape['loops'][loop_map[k - 1]].get('names'))
         if (j - 1) not in mp:
             raise WeaveError('lost anchor: %s: statement %d of loop %d has no counterpart' % (name, j, k))
         return mp[j - 1] + 1
@@ -463,6 +540,13 @@ def weave_fn(fs: FnSpec, text: str, sig_brace: int, shim_table, variant=0, basel
     # from the original text.
     for sname in fs.shims:
         sh = shim_table[sname]
+        if renames:
+            # a shim pattern that names a code local follows the renaming of that local (names of 3+ characters only, so that
+            # regex escapes such as \w are never touched)
+            long_ = {o: n_ for o, n_ in renames.items() if len(o) >= 3}
+            if long_:
+                rx2 = re.compile(r'(?<![.\w\\])(%s)\b' % '|'.join(re.escape(o) for o in long_))
+                sh = dict(sh, pattern=rx2.sub(lambda mm: long_[mm.group(1)], sh['pattern']), replace=rx2.sub(lambda mm: long_[mm.group(1)], sh['replace']))
         hits = list(re.finditer(sh['pattern'], m[sig_brace:], re.S))
         # a shim is a rewrite rule: where its pattern does not occur there is nothing to rewrite (if the code now uses a
         # construct Verus cannot read, Verus says so and the function is reported UNDECIDED)
